@@ -31,7 +31,7 @@ def main():
     if pats and os.path.exists(resfile):
         results = json.load(open(resfile))
     items = []
-    for kind in ("selftest/mutants", "seeded"):
+    for kind in ("selftest/mutants", "seeded", "selftest/harmless"):
         for n in sorted(os.listdir(os.path.join(V, kind))):
             dd = os.path.join(V, kind, n)
             if os.path.exists(os.path.join(dd, "patch.diff")) and (not pats or any(p in n for p in pats)):
@@ -56,10 +56,17 @@ def main():
             elif r.returncode not in (0, 1):
                 first = first or ("exit %d: %s" % (r.returncode, (r.stdout + r.stderr)[-200:]))
         results[n] = {"kind": kind, "property": meta["property"], "checked": props, "detected_by": det, "first": first, "seconds": round(secs, 1)}
+        if kind == "selftest/harmless":
+            # behaviour-preserving edits: an alarm here is a false alarm
+            results[n]["harmless"] = True
+            print("%-34s %-8s %-10s %s" % (n, ",".join(props), "FALSE-ALARM" if det else "QUIET", first[:110]), flush=True)
+            continue
         print("%-34s %-8s %-10s %s" % (n, ",".join(props), "DETECTED" if det else "MISSED", first[:110]), flush=True)
     sh("git", "-C", "/repo", "worktree", "remove", "--force", WT)
     shutil.rmtree(OUT, ignore_errors=True)
     json.dump(results, open(resfile, "w"), indent=1, sort_keys=True)
-    missed = [n for n, r in results.items() if not r.get("detected_by")]
-    print("%d changes, %d detected, missed: %s" % (len(results), len(results) - len(missed), missed))
+    breaking = {n: r for n, r in results.items() if not r.get("harmless")}
+    missed = [n for n, r in breaking.items() if not r.get("detected_by")]
+    false_alarms = [n for n, r in results.items() if r.get("harmless") and r.get("detected_by")]
+    print("%d changes, %d detected, missed: %s; %d harmless edits, false alarms: %s" % (len(breaking), len(breaking) - len(missed), missed, len(results) - len(breaking), false_alarms))
 main()
